@@ -164,12 +164,14 @@ type worker struct {
 }
 
 var (
-	wkMu sync.Mutex
-	wk   *worker
+	wkMu      sync.Mutex
+	wk        *worker
+	spinsSeen int // workers given up because a loop of the code under test never parked
 )
 
 func startWorker() (*worker, error) {
 	cmd := exec.Command(os.Args[0], "worker")
+	cmd.Env = append(os.Environ(), "C16_SPINS="+strconv.Itoa(spinsSeen))
 	stdin, err := cmd.StdinPipe()
 	if err != nil {
 		return nil, err
@@ -208,6 +210,7 @@ func runCase(c corr.Case) (res corr.Result) {
 			if m.Done {
 				res.Hits = m.Hits
 				if m.Quit {
+					spinsSeen++
 					_ = wk.stdin.Close()
 					_ = wk.cmd.Wait()
 					wk = nil
